@@ -10,6 +10,7 @@
 //!        U<q> suspend+await (resumer kept)   u<q> suspend, the future is only awaited when R / r needs the resumer   R resume   C<q> suspend+await and hand the resumer to whoever executes R<q>   R<q> resume object q's suspension from THIS caller (waits until the resumer has been handed over)   r drop the resumer
 //!        E<e> fire event   O<g> open gate   X<q> drop this program's handle of object q
 //!        I<q>k<k> pipe_in stream k into object q   J<q>k<k>d<d> pipe stream k through q (depth d, 0 = default); output kept by the caller
+//!        j<k>n<n> produce n GATED items (their processing waits until the consumer has received every earlier item)
 //!        g<k>n<n> produce n SLOW items (their processing yields co-operatively once, holding the object across the yield)   G<k>n<n> produce n items on stream k   H<k> end stream k   N<n> consume n outputs (0 = until the end)   K drop the output stream
 //!        Z<k> block until the pipe of stream k has released its input stream and closure
 //!        L<n> yield n times (lets the other threads settle)
@@ -51,6 +52,8 @@ pub enum Op {
     Pipe(usize, usize, usize),
     Produce(usize, usize),
     ProduceSlow(usize, usize),
+    /// `j<k>n<n>`: items whose processing waits until the consumer has received every earlier item of the stream
+    ProduceGated(usize, usize),
     CloseStream(usize),
     Consume(usize),
     DropStream,
@@ -64,7 +67,7 @@ pub enum Op {
 
 #[derive(Clone, Debug, PartialEq)]
 pub struct Program { pub nq: usize, pub pool: usize, pub nev: usize, pub ngates: usize, pub callers: Vec<Vec<Op>> }
-impl Program { pub fn nstreams(&self) -> usize { self.callers.iter().flatten().map(|o| match o { Op::PipeIn(_, k) | Op::Pipe(_, k, _) | Op::Produce(k, _) | Op::ProduceSlow(k, _) | Op::CloseStream(k) | Op::AwaitRelease(k) => k + 1, _ => 0 }).max().unwrap_or(0) } }
+impl Program { pub fn nstreams(&self) -> usize { self.callers.iter().flatten().map(|o| match o { Op::PipeIn(_, k) | Op::Pipe(_, k, _) | Op::Produce(k, _) | Op::ProduceSlow(k, _) | Op::ProduceGated(k, _) | Op::CloseStream(k) | Op::AwaitRelease(k) => k + 1, _ => 0 }).max().unwrap_or(0) } }
 
 impl Op {
     pub fn obj(&self) -> Option<usize> {
@@ -121,6 +124,7 @@ pub fn fmt_op(o: &Op) -> String {
         Op::Pipe(q, k, d) => format!("J{}k{}d{}", q, k, d),
         Op::Produce(k, n) => format!("G{}n{}", k, n),
         Op::ProduceSlow(k, n) => format!("g{}n{}", k, n),
+        Op::ProduceGated(k, n) => format!("j{}n{}", k, n),
         Op::CloseStream(k) => format!("H{}", k),
         Op::Consume(n) => format!("N{}", n),
         Op::DropStream => "K".into(),
@@ -227,6 +231,7 @@ fn parse_op(cs: &[char], i: &mut usize) -> Result<Op, String> {
         'J' => { let q = parse_num(cs, i)?; expect_ch(cs, i, 'k')?; let k = parse_num(cs, i)?; expect_ch(cs, i, 'd')?; Op::Pipe(q, k, parse_num(cs, i)?) }
         'G' => { let k = parse_num(cs, i)?; expect_ch(cs, i, 'n')?; Op::Produce(k, parse_num(cs, i)?) }
         'g' => { let k = parse_num(cs, i)?; expect_ch(cs, i, 'n')?; Op::ProduceSlow(k, parse_num(cs, i)?) }
+        'j' => { let k = parse_num(cs, i)?; expect_ch(cs, i, 'n')?; Op::ProduceGated(k, parse_num(cs, i)?) }
         'H' => Op::CloseStream(parse_num(cs, i)?),
         'N' => Op::Consume(parse_num(cs, i)?),
         'K' => Op::DropStream,
